@@ -28,10 +28,13 @@ def configs(tier, seed):
                             continue
                         for d in ('l', 'r'):
                             out.append(dict(signed=s, n_word=n, n_frac=f, mode=mode, dir=d, k=k, shape=[]))
-    for _ in range(12 if tier == 'quick' else 120):
+    for i in range(24 if tier == 'quick' else 240):
         n = rng.choice((2, 3, 5, 8))
-        out.append(dict(signed=rng.choice((True, False)), n_word=n, n_frac=rng.choice((0, n // 2)), mode=rng.choice(('expand', 'trunc')),
-                        dir=rng.choice('lr'), k=rng.randrange(0, n + 3), shape=[2]))
+        c = dict(signed=rng.choice((True, False)), n_word=n, n_frac=rng.choice((0, n // 2)), mode=rng.choice(('expand', 'trunc')),
+                 dir=rng.choice('lr'), k=rng.randrange(0, n + 3), shape=[2])
+        if i % 2:
+            c['age'] = 'inplace'          # the array was shifted before and then received its codes by in-place element writes
+        out.append(c)
     return out
 
 
